@@ -148,6 +148,11 @@ type Case struct {
 	// evaluator is asked to Prepare a second time before it runs.
 	Later        []Expect `json:"later,omitempty"`
 	PrepareTwice bool     `json:"prepare_twice,omitempty"`
+	// LaterFields: the fields of the object of each later run (nil = as in the
+	// first run). SameAddress: later objects are the first run's map or pointer,
+	// changed in place, as a host re-using one record does.
+	LaterFields [][]eng.Field `json:"later_fields,omitempty"`
+	SameAddress bool          `json:"same_address,omitempty"`
 	Msg          string   `json:"message,omitempty"`
 }
 
@@ -165,6 +170,11 @@ func (c *Case) fix() {
 	for k, v := range c.HostVals {
 		v.Fix()
 		c.HostVals[k] = v
+	}
+	for i := range c.LaterFields {
+		for j := range c.LaterFields[i] {
+			c.LaterFields[i][j].V.Fix()
+		}
 	}
 	for i := range c.Later {
 		c.Later[i].Val.Fix()
@@ -718,6 +728,11 @@ func runSequence(c *Case, obj interface{}) error {
 		if exp.Unspec {
 			return nil // from here on the model cannot follow
 		}
+		if i > 0 && i-1 < len(c.LaterFields) && c.LaterFields[i-1] != nil {
+			spec := &eng.ObjSpec{Mode: c.Obj.Mode, Fields: c.LaterFields[i-1]}
+			next := spec.Build()
+			obj = overwriteInPlace(obj, next, c.SameAddress)
+		}
 		res := r.Execute(obj)
 		if err := checkResult(res, exp); err != nil {
 			return fmt.Errorf("run %d of %d: %v", i+1, len(exps), err)
@@ -730,4 +745,31 @@ func runSequence(c *Case, obj interface{}) error {
 		}
 	}
 	return nil
+}
+
+// overwriteInPlace gives old the contents of next when both are maps, or
+// pointers to the same struct type, and inPlace is wanted; otherwise it
+// returns next.
+func overwriteInPlace(old, next interface{}, inPlace bool) interface{} {
+	if !inPlace || old == nil || next == nil {
+		return next
+	}
+	if om, ok := old.(map[string]interface{}); ok {
+		if nm, ok := next.(map[string]interface{}); ok {
+			for k := range om {
+				delete(om, k)
+			}
+			for k, v := range nm {
+				om[k] = v
+			}
+			return om
+		}
+		return next
+	}
+	ov, nv := reflect.ValueOf(old), reflect.ValueOf(next)
+	if ov.Kind() == reflect.Ptr && nv.Kind() == reflect.Ptr && !ov.IsNil() && !nv.IsNil() && ov.Type() == nv.Type() {
+		ov.Elem().Set(nv.Elem())
+		return old
+	}
+	return next
 }
